@@ -28,7 +28,6 @@ import (
 	"net/http"
 	"sync"
 	"sync/atomic"
-	"testing"
 	"time"
 
 	"github.com/DataDog/zstd"
@@ -631,10 +630,8 @@ var c43HandshakeLen = len("GET /gossip HTTP/1.1\r\nHost: verif\r\nUpgrade: webso
 
 func c43ID(n int) string { return fmt.Sprintf("%08d", n) }
 
-func TestVerifC43Wire(t *testing.T) {
-	c := kit.Start(t, "C43", "wire")
-	defer c.Finish()
-	c.Rule("for every protocol tag (and unknown/deprecated tags) a fresh connection to a real wsPeer carries: a few in-limit messages, then a probe of payload size limit-1, limit, limit+1, 2*limit, or a total length of 6 MiB-1 / 6 MiB / 6 MiB+1, then an in-limit trailer; PP probes also as zstd frames expanding to the decompression bound, bound+1 and 6 MiB; AV/TX messages are re-sent as duplicates on the same and on a second connection sharing the incoming filter. Messages are cut into websocket frames by plan (whole, random cuts, 1-3 byte frames, a frame ending exactly at the limit, empty continuation frames and pings in between) and the byte stream into PRNG-sized transport writes, over TCP loopback or net.Pipe. distinct = (tag, role, fragmentation plan, transport, outcome)")
+func c43WireLane(c *kit.Ctx, ra *ruleAcc) {
+	ra.add("wire", "for every protocol tag (and unknown/deprecated tags) a fresh connection to a real wsPeer carries: a few in-limit messages, then a probe of payload size limit-1, limit, limit+1, 2*limit, or a total length of 6 MiB-1 / 6 MiB / 6 MiB+1, then an in-limit trailer; PP probes also as zstd frames expanding to the decompression bound, bound+1 and 6 MiB; AV/TX messages are re-sent as duplicates on the same and on a second connection sharing the incoming filter. Messages are cut into websocket frames by plan (whole, random cuts, 1-3 byte frames, a frame ending exactly at the limit, empty continuation frames and pings in between) and the byte stream into PRNG-sized transport writes, over TCP loopback or net.Pipe. distinct = (tag, role, fragmentation plan, transport, outcome)")
 	c.Assume("unknown tags have no per-tag limit (MaxMessageSize()==0): they are never delivered, and their buffering is bounded by the connection maximum only — recorded, not judged")
 
 	filter := makeMessageFilter(config.GetDefaultLocal().IncomingMessageFilterBucketCount, config.GetDefaultLocal().IncomingMessageFilterBucketSize)
@@ -664,6 +661,10 @@ func TestVerifC43Wire(t *testing.T) {
 	}
 	connN := 0
 	rounds := c.N(1, 6)
+	// Under the race detector the per-byte work (masking, filling, comparing) is ~30x slower; the race lane keeps
+	// all tags and fragmentation plans but leaves out probes above 256 KiB and the zstd expansions (those run in
+	// the plain lane). Case selection stays a function of (seed, lane) only.
+	race := c.Lane == "race"
 	for round := 0; round < rounds && c.Violations() < 20; round++ {
 		for ti, tg := range tags {
 			for pi, pb := range probes {
@@ -680,6 +681,9 @@ func TestVerifC43Wire(t *testing.T) {
 					n = r.Range(1, 5000)
 				}
 				big := n > 1<<20
+				if race && n > 1<<18 {
+					continue
+				}
 				if big && c.Quick() && limit < 1<<20 && pi >= 4 && (ti+pi+round)%3 != 0 {
 					continue // quick tier: the 6 MiB probes against small-limit tags are sampled, not all run
 				}
@@ -726,7 +730,7 @@ func TestVerifC43Wire(t *testing.T) {
 		// compressed proposals: expansion at the bound, one over, and far over
 		for zi, zn := range []int{MaxDecompressedMessageSize, MaxDecompressedMessageSize + 1, MaxMessageLength, 64 << 20} {
 			r := c.Rand(12, uint64(round), uint64(zi))
-			if zn > 16<<20 && c.Quick() && round > 0 {
+			if race || (zn > 16<<20 && c.Quick() && round > 0) {
 				continue
 			}
 			comp := zstdZeros(c, zn)
@@ -772,23 +776,23 @@ func TestVerifC43Wire(t *testing.T) {
 	case <-time.After(c43Watchdog):
 		c.Harness("collector did not stop")
 	}
-	c.Require("connections", 60)
-	c.Require("delivered", 100)
-	c.Require("delivered_exactly_at_limit", 6)
-	c.Require("trailers_delivered", 20)
-	c.Require("oversized_sent", 25)
-	c.Require("duplicates_sent", 8)
-	c.Require("delivered_zstd_expanded", 1)
-	c.Require("zstd_bombs_sent", 2)
+	c.Require("connections", 40)
+	c.Require("delivered", 80)
+	c.Require("delivered_exactly_at_limit", 5)
+	c.Require("trailers_delivered", 15)
+	c.Require("oversized_sent", 15)
+	c.Require("duplicates_sent", 4)
+	if !race {
+		c.Require("delivered_zstd_expanded", 1)
+		c.Require("zstd_bombs_sent", 2)
+	}
 }
 
-// TestVerifC43WireConcurrent: k connections deliver overlapping sets of AV/TX messages at the same time into one
+// c43WireConcurrentLane: k connections deliver overlapping sets of AV/TX messages at the same time into one
 // incoming filter and one readBuffer. Judged after all peers have stopped: nothing delivered twice, nothing
 // delivered that was not sent, nothing oversized.
-func TestVerifC43WireConcurrent(t *testing.T) {
-	c := kit.Start(t, "C43", "wireconc")
-	defer c.Finish()
-	c.Rule("k=3..8 concurrent raw websocket connections (TCP and net.Pipe mixed) into real wsPeers sharing one incoming message filter (production size 5x512) send overlapping PRNG-chosen subsets of a pool of AV and TX messages (each message on 1..k connections, some twice on the same one), interleaved with other tags and an occasional over-limit message that ends that connection; the pool stays below (buckets-1)*bucketSize. distinct = (k, copies of a message sent, copies delivered)")
+func c43WireConcurrentLane(c *kit.Ctx, ra *ruleAcc) {
+	ra.add("wire-concurrent", "k=3..8 concurrent raw websocket connections (TCP and net.Pipe mixed) into real wsPeers sharing one incoming message filter (production size 5x512) send overlapping PRNG-chosen subsets of a pool of AV and TX messages (each message on 1..k connections, some twice on the same one), interleaved with other tags and an occasional over-limit message that ends that connection; the pool stays below (buckets-1)*bucketSize. distinct = (k, copies of a message sent, copies delivered)")
 	ncases := c.N(12, 150)
 	connN := 0
 	for i := 0; i < ncases && c.Violations() < 20; i++ {
